@@ -68,16 +68,53 @@ func (t *Term) Has(pred func(*Term) bool) bool {
 	return false
 }
 
-// Pure reports whether the term is built only from parameters, fields, constants, globals,
-// conversions and operators (no call result, no opaque memory).
+// Pure reports whether the term is a function of the inputs only: parameters, fields, constants, globals,
+// conversions, operators, dereferences and checked type assertions (no call result, no memory that a
+// call may have changed).
 func (t *Term) Pure() bool {
-	return !t.Has(func(x *Term) bool {
-		switch x.Op {
-		case "call", "extract", "opaque", "unknown", "phi", "loop", "alloc", "closure", "dyn", "after", "copyof":
-			return true
+	if t == nil {
+		return false
+	}
+	switch t.Op {
+	case "call", "opaque", "unknown", "phi", "loop", "alloc", "closure", "dyn", "after", "copyof", "makeslice", "makemap":
+		return false
+	case "extract":
+		if len(t.Args) == 1 && t.Args[0].Op == "assert" {
+			return t.Args[0].Pure()
 		}
 		return false
-	})
+	}
+	for _, a := range t.Args {
+		if !a.Pure() {
+			return false
+		}
+	}
+	return true
+}
+
+// Leaves lists the parameter/field/global paths a term mentions (as strings).
+func (t *Term) Leaves() map[string]bool {
+	out := map[string]bool{}
+	var walk func(x *Term)
+	walk = func(x *Term) {
+		if x == nil {
+			return
+		}
+		switch x.Op {
+		case "param", "global":
+			out[x.String()] = true
+			return
+		case "field":
+			// a field path rooted at a param/global/extract counts as one leaf
+			out[x.String()] = true
+			return
+		}
+		for _, a := range x.Args {
+			walk(a)
+		}
+	}
+	walk(t)
+	return out
 }
 
 func (t *Term) String() string {
@@ -617,7 +654,10 @@ func (e *Eval) Select(v ssa.Value, path []string, at ssa.Instruction) *Term {
 			return t
 		}
 		if e.busy[v] {
-			return mk("loop", v.Name())
+			if ph, ok := v.(*ssa.Phi); ok && ph.Comment != "" {
+				return mk("loop", ph.Comment)
+			}
+			return mk("loop", "cycle")
 		}
 		e.busy[v] = true
 		t := e.eval(v, nil, at)
@@ -799,7 +839,66 @@ func (e *Eval) callTerm(c *ssa.Call) *Term {
 		args = append(args, e.argTerm(a, c))
 	}
 	t := mk("call", name, args...)
+	if in := e.inlinePure(c, args); in != nil {
+		return in
+	}
 	return t
+}
+
+var inlineBusy = map[*ssa.Function]bool{}
+
+// inlinePure replaces a call of a small in-module "expression function" (single return, result built only
+// from its parameters, fields, constants and operators, no writes) by its result with the arguments
+// substituted. This keeps argument provenance stable under helper extraction.
+func (e *Eval) inlinePure(c *ssa.Call, args []*Term) *Term {
+	callee := c.Common().StaticCallee()
+	if callee == nil || !InModule(callee) || callee == e.Fn || inlineBusy[callee] {
+		return nil
+	}
+	if len(callee.Blocks) != 1 || callee.Signature.Results().Len() != 1 || len(callee.Params) != len(args) {
+		return nil
+	}
+	blk := callee.Blocks[0]
+	ret, ok := blk.Instrs[len(blk.Instrs)-1].(*ssa.Return)
+	if !ok || len(ret.Results) != 1 {
+		return nil
+	}
+	for _, ins := range blk.Instrs {
+		switch x := ins.(type) {
+		case *ssa.Store:
+			// spilling a parameter into its own local is fine; any other store is an effect
+			if _, isAlloc := x.Addr.(*ssa.Alloc); !isAlloc {
+				return nil
+			}
+			if _, isParam := x.Val.(*ssa.Parameter); !isParam {
+				return nil
+			}
+		case ssa.CallInstruction:
+			return nil
+		case *ssa.MapUpdate, *ssa.Send, *ssa.Go, *ssa.Defer, *ssa.Panic:
+			return nil
+		}
+	}
+	inlineBusy[callee] = true
+	defer delete(inlineBusy, callee)
+	ce := For(callee)
+	rt := ce.Select(ret.Results[0], nil, ret)
+	if !rt.Pure() || rt.IsUnknown() {
+		return nil
+	}
+	// substitute parameters (simultaneously: go through placeholders)
+	out := rt
+	for i := range args {
+		out = out.Subst(Param(i), mk("param", fmt.Sprintf("__%d", i)))
+	}
+	for i, a := range args {
+		arg := a
+		if arg.Op == "addr" && len(arg.Args) == 1 {
+			arg = arg.Args[0] // pointer to a local: field selection goes through the content
+		}
+		out = out.Subst(mk("param", fmt.Sprintf("__%d", i)), arg)
+	}
+	return out
 }
 
 // argTerm renders an argument; a pointer to a tracked object is rendered as &object-content so that
